@@ -14,7 +14,7 @@ from common import Ctx, Counters, Failure, main_wrapper, run_workers, load_repla
 
 PID = "C03"
 RULE = ("per configuration (caller environment inherited / empty / with odd entries x every output type x formats that together use every data source x chains incl. exclude_spawns_of x real "
-        "sink states: directory absent, no permission as non-root, /dev/full (ENOSPC), unread datagram socket with a full queue, controlling terminal with the caller as foreground and as background job): a "
+        "sink states: directory absent, no permission as non-root, /dev/full (ENOSPC), unread datagram socket with a full queue, stream listener whose daemon does not accept (backlog full), controlling terminal with the caller as foreground and as background job): a "
         "traced dry run lists the I/O system calls issued between wrapper entry and the recording real-exec; then EVERY such call is "
         "failed once with each plausible errno for that call (all single faults; every errno also persistently from that call on, except EINTR), short transfers (write/send returning 1 or 10, read returning 0 or 1), EAGAIN (and "
         "EINTR on write/send/connect) also persistently (from that call on), and pairs of faults on different calls are sampled; a second pass repeats the interrupted (EINTR/EAGAIN) and short transfers on the AddressSanitizer build (a retry resuming from the wrong offset). Oracle: the real exec is reached exactly once with intact "
@@ -56,6 +56,8 @@ def configs(out, quick, rng):
             ("file-noperm", b"file:" + o + b"/noperm.log", ["noperm"]), ("socket-absent", b"socket:" + o + b"/nosock", []),
             ("socket-fullqueue", b"socket:" + o + b"/sock", ["sock", "fill"]), ("devlog-fullqueue", b"devlog", ["devlog", "fill"]),
             ("devlog-absent", b"devlog", []), ("file-relative", b"file:relative.log", []),
+            # the log socket is a STREAM listener (syslog-ng's unix-stream("/dev/log")) whose daemon is not accepting, backlog full
+            ("devlog-stream-listener-stalled", b"devlog", ["devlog", "stream"]), ("socket-stream-listener-stalled", b"socket:" + o + b"/sock", ["sock", "stream"]),
             # the caller has a controlling terminal: as the foreground job, and as a background job (`cmd &`), where terminal
             # operations other than a plain write stop the process with SIGTTOU
             ("devtty-foreground", b"devtty", ["ctty"]), ("devtty-background-job", b"devtty", ["ctty", "bg"])]
@@ -91,11 +93,11 @@ def scenario_ops(cfg, out):
     ops = [drv.op("x", out + "/log", out + "/noperm.log"), drv.op("S", 1, "pipe"), drv.op("S", 2, "pipe")]
     st = cfg["state"]
     if "devlog" in st:
-        ops.append(drv.op("K", "devlog", out + "/devlog.sock", 1, 0, 2304))
+        ops.append(drv.op("K", "devlog", out + "/devlog.sock", 1, 0, 2304, "stream" if "stream" in st else ""))
     else:
         ops.append(drv.op("K", "dl-unused", out + "/devlog-unused.sock", 0))
     if "sock" in st:
-        ops.append(drv.op("K", "sock", out + "/sock", 0, 0, 2304))
+        ops.append(drv.op("K", "sock", out + "/sock", 0, 0, 2304, "stream" if "stream" in st else ""))
     if "fill" in st:
         ops.append(drv.op("p", out + ("/devlog.sock" if "devlog" in st else "/sock")))
     ops.append(drv.op("C", gen.render_ini(opts)))
